@@ -698,7 +698,30 @@ def chk_comp_string(acc, s, rna, with_seqs):
         r2 = call(lambda: mt.rc(mt.rc(text)))
         if r2 != ("ok", text):
             _fail(acc, f"{fam} MolType.rc: not an involution", case, r2, text)
+        if fam == "new":
+            # the other argument forms of the same entry points: bytes and index arrays must say what the string form says
+            import numpy
+
+            alpha = mt.degen_gapped_alphabet
+            for form, meth, want in (("bytes", mt.complement, want_c), ("bytes", mt.rc, want_rc), ("array", mt.complement, want_c), ("array", mt.rc, want_rc)):
+                acc.case((fam, name, meth.__name__, form, text), nontrivial=nt)
+                if form == "bytes":
+                    r = call(lambda: meth(text.encode("utf8")).decode("utf8"))
+                else:
+                    r = call(lambda: alpha.from_indices(numpy.asarray(meth(alpha.to_indices(text)))))
+                    if r[0] == "ok" and not isinstance(r[1], str):
+                        r = ("ok", "".join(r[1]))
+                if r != ("ok", want):
+                    _fail(acc, f"new MolType.{meth.__name__} given {form}: " + ("symbols differ from the string form" if r[0] == "ok" else f"raised {r[1]}"), case, r, want)
         if with_seqs and text:
+            if fam == "new":
+                sq = mt.make_seq(seq=text, name="x")
+                acc.case((fam, name, "array(seq.rc)", text), nontrivial=nt)
+                r = call(lambda: mt.degen_gapped_alphabet.from_indices(numpy.array(sq.rc())))
+                if r[0] == "ok" and not isinstance(r[1], str):
+                    r = ("ok", "".join(r[1]))
+                if r != ("ok", want_rc):
+                    _fail(acc, "new Sequence.rc: array form differs from the string form" if r[0] == "ok" else f"new Sequence.rc: array form raised {r[1]}", case, r, want_rc)
             seq = mt.make_seq(text, name="x") if fam == "old" else mt.make_seq(seq=text, name="x")
             acc.case((fam, name, "seq.rc", text), nontrivial=nt)
             r = call(lambda: str(seq.rc()))
@@ -805,9 +828,39 @@ def _nchunks(n, per_string_ms, target_s=12.0):
     return max(1, min(4 ** n, int(total / target_s) + 1))
 
 
+CODE_ORDERS = [[1, 2, 1], [2, 1, 2], [6, 22, 1, 23], [23, 1, 6], [4, 14, 2, 1]]
+
+
+def chk_gapped_stops(acc, order):
+    """terminal stop handling of *gapped* sequences (the stop codon is followed by gap characters), for several genetic
+    codes one after the other in the same process: what a call answers must depend on its own code only, not on the
+    codes used before it"""
+    I = impl()
+    for pos, cid in enumerate(order):
+        table = GOLD[cid]["aa"]
+        for i in range(64):
+            codon = codon_at(i)
+            stop = table[i] == "*"
+            for tail in ("---", "-", "------"):
+                s = "ATGCCC" + codon + tail
+                case = {"part": "gapped_stops", "s": s, "code": cid, "order": order, "codes_used_before": order[:pos]}
+                for fam in ("old", "new"):
+                    seq = I["om"].DNA.make_seq(s, name="x") if fam == "old" else I["nm"].DNA.make_seq(seq=s, name="x")
+                    acc.case((fam, "gapped", s, cid, tuple(order[:pos])), nontrivial=True)
+                    r = call(lambda: bool(seq.has_terminal_stop(gc=cid)))
+                    if r != ("ok", stop):
+                        _fail(acc, f"{fam} Sequence.has_terminal_stop on a gapped sequence: " + ("answer" if r[0] == "ok" else f"raised {r[1]}"), case, r, stop)
+                    r = call(lambda: str(seq.trim_stop_codon(gc=cid)).replace("-", ""))
+                    want = "ATGCCC" if stop else "ATGCCC" + codon
+                    acc.outcome((fam, "gapped-trim", stop, r[0]))
+                    if r != ("ok", want):
+                        _fail(acc, f"{fam} Sequence.trim_stop_codon on a gapped sequence: " + ("residues" if r[0] == "ok" else f"raised {r[1]}"), case, r, want)
+    acc.sample({"gapped_terminal_stops": True, "code_order": order}, "gapped_stops")
+
+
 def shards(tier, seed):
     b = bounds(tier)
-    out = [{"part": "tables"}, {"part": "symbols"}]
+    out = [{"part": "tables"}, {"part": "symbols"}] + [{"part": "gapped_stops", "order": o} for o in CODE_ORDERS]
     # gc level: all distinct tables inside the shard
     for n in range(0, b["gc_len"] + 1):
         of = _nchunks(n, 0.95 * len(TABLE_REPS), target_s=8.0 if tier == "quick" else 40.0)
@@ -862,6 +915,8 @@ def run_shard(spec, acc):
     elif part == "symbols":
         for name in ("DNA", "RNA", "PROTEIN"):
             chk_symbols(acc, name)
+    elif part == "gapped_stops":
+        chk_gapped_stops(acc, spec["order"])
     elif part == "translate":
         for s in _strings(spec["n"], spec["chunk"], spec["of"]):
             for cid in TABLE_REPS:
@@ -903,6 +958,8 @@ def replay(case):
         chk_registry(acc)
         if "code" in case:
             chk_tables(acc, case["code"])
+    elif part == "gapped_stops":
+        chk_gapped_stops(acc, case["order"])
     elif part == "translate":
         chk_translate(acc, case["s"], case["code"])
     elif part == "seq":
